@@ -465,7 +465,7 @@ func main() {
 				rep.FailingInputFound = true
 			}
 			if strings.Contains(impl[i], "MUTATED-ARG") || strings.Contains(impl[i], "panic") || strings.Contains(impl[i], "timeout") ||
-				strings.Contains(impl[i], "true-err") || strings.Contains(impl[i], "false-nil") || strings.Contains(impl[i], "STRING-MISMATCH") {
+				strings.Contains(impl[i], "true-err") || strings.Contains(impl[i], "false-nil") || strings.Contains(impl[i], "STRING-MISMATCH") || strings.Contains(impl[i], "HISTORY-DEPENDENT") {
 				rep.FailingInputFound = true // the answer itself violates a property (C10, C12, C13, C15)
 			}
 			rep.Mismatches = append(rep.Mismatches, mm)
